@@ -382,14 +382,21 @@ impl ops::Shr<&Object> for &Object {
 
 impl Hash for Object {
     fn hash<H: Hasher>(&self, state: &mut H) {
+        // Keys that are equal must hash alike: an integer equals the float
+        // with the same value (1 == 1.0) and 0.0 equals -0.0, so integers and
+        // floats are both hashed through their value as a double.
+        fn number_bits(f: f64) -> u64 {
+            if f == 0.0 {
+                0
+            } else {
+                f.to_bits()
+            }
+        }
         match self {
-            Object::Integer(ref n) => n.hash(state),
+            Object::Integer(ref n) => state.write_u64(number_bits(*n as f64)),
             Object::Char(ref ch) => ch.hash(state),
             Object::Byte(ref b) => b.hash(state),
-            Object::Float(ref f) => {
-                // Use the built-in hash function for f64
-                state.write_u64(f.to_bits());
-            }
+            Object::Float(ref f) => state.write_u64(number_bits(*f)),
             Object::Bool(ref b) => b.hash(state),
             Object::Str(ref s) => s.hash(state),
             Object::Builtin(f) => f.name.hash(state),
